@@ -94,6 +94,7 @@ const (
 	VBeforeGenesis   = "before-genesis"   // signed, time before any chain time
 	VSignedRelink    = "signed-relink"    // signed, wrong Prev (fails only adjacently)
 	VSignedFork      = "signed-fork"      // signed, correct Prev, other nonce (equivocation)
+	VTimewarp        = "timewarp"         // signed, correct Prev, time 1ns before its predecessor's time
 )
 
 // Variant derives an adversarial header from the canonical header at height h.
@@ -117,6 +118,10 @@ func (c *Chain) Variant(kind string, h uint64, salt uint64) *Header {
 	case VSignedRelink:
 		v.Prev = bytes.Repeat([]byte{0xEE}, 32)
 	case VSignedFork:
+	case VTimewarp:
+		if p := c.At(h - 1); p != nil {
+			v.T = p.T - 1
+		}
 	default:
 		panic("vh: unknown variant " + kind)
 	}
